@@ -12,6 +12,7 @@ import (
 	"math/rand"
 	"strconv"
 	"strings"
+	"time"
 
 	"github.com/quickfixgo/quickfix"
 	"github.com/shopspring/decimal"
@@ -456,6 +457,23 @@ func randomCase(c *core.Ctx, r *core.Result, rng *rand.Rand, sample bool) {
 				keep = 0
 			}
 			tm := timeFromUnix(unix, ns)
+			// the same instant expressed in some other location must be written as the same UTC text
+			if loc := core.Pick(rng, "", "", "+05:30", "-03:30", "+14:00", "-11:00", "America/New_York"); loc != "" && y > 1 && y < 9998 {
+				switch loc {
+				case "America/New_York":
+					if l, err := time.LoadLocation(loc); err == nil {
+						tm = tm.In(l)
+					}
+				default:
+					hh, _ := strconv.Atoi(loc[1:3])
+					mm, _ := strconv.Atoi(loc[4:6])
+					off := hh*3600 + mm*60
+					if loc[0] == '-' {
+						off = -off
+					}
+					tm = tm.In(time.FixedZone(loc, off))
+				}
+			}
 			got := string(quickfix.FIXUTCTimestamp{Time: tm, Precision: p}.Write())
 			if got != want {
 				r.Violate("C14/timestamp/write", fmt.Sprintf("Write(unix %d.%09d, precision %v) = %q, expected %q", unix, ns, p, got, want), tcase{"timestamp", fmt.Sprint(unix, ns, p), want, got})
